@@ -236,6 +236,8 @@ func setResponder(l *fedlab.Lab, h headerCase, class string) {
 // noCallback: the cache is attached WITHOUT an error callback (nil is allowed).
 var noCallback bool
 
+var cacheErrMu sync.Mutex
+
 func runHistory(ls *labs, hist []step, fault string, faultAt int) (out string, fails []fail) {
 	defer func() {
 		if r := recover(); r != nil {
@@ -303,7 +305,12 @@ func runHistory0(ls *labs, hist []step, fault string, faultAt int) (string, []fa
 		}
 		nsets := len(cache.sets)
 		hits0 := cache.hits
-		opt := engine.VerifWithResponseCache(cache, cfgTTL, func(err error) { cacheErrs = append(cacheErrs, err.Error()) })
+		// the engine reports cache errors from the goroutines of parallel fetches
+		opt := engine.VerifWithResponseCache(cache, cfgTTL, func(err error) {
+			cacheErrMu.Lock()
+			defer cacheErrMu.Unlock()
+			cacheErrs = append(cacheErrs, err.Error())
+		})
 		if noCallback {
 			opt = engine.VerifWithResponseCache(cache, cfgTTL, nil)
 		}
